@@ -80,7 +80,18 @@ func (vc *VC) bvBinop(fx *fexec, st *State, op token.Token, a, b Val, rt types.T
 		} else {
 			c, ok := constOf(b.T)
 			if !ok {
-				panic(engErr("shift count of unexpected sort at " + pos))
+				// mathematical shift count (signed int in `arith mixed`)
+				fx.panicPoint(st, lt(b.T, intLit(0)), "shift", "negative shift count", pos)
+				w := intLit(int64(ii.w))
+				cnt = ite(ge(b.T, w), bvLit(big.NewInt(int64(ii.w)), ii.w),
+					Term{fmt.Sprintf("((_ int2bv %d) %s)", ii.w, b.T.S), bvSort(ii.w)})
+				if op == token.SHL {
+					return mk(app(srt, "bvshl", a.T, cnt))
+				}
+				if ii.signed {
+					return mk(app(srt, "bvashr", a.T, cnt))
+				}
+				return mk(app(srt, "bvlshr", a.T, cnt))
 			}
 			if c.Sign() < 0 {
 				fx.panicPoint(st, tTrue, "shift", "negative shift count", pos)
